@@ -74,6 +74,30 @@ int main(void)
             sweep(s, n, 0);
             printf("END\n");
             free(s);
+        } else if (line[0] == 'M') {
+            /* M <rc>: callback result code with allow_tld = 0: prints ret, errcode and the message for every mode */
+            int m;
+            g_rc = (int)strtol(line + 2, NULL, 0);
+            g_stage = "policy-message";
+            putchar('[');
+            for (m = 0; m < 4; m++) {
+                eav_t *e = malloc(sizeof *e);
+                int ret;
+                memset(e, 0xA5, sizeof *e);
+                eav_init(e);
+                e->rfc = (EAV_RFC)m;
+                if (eav_setup(e) == 0) {
+                    e->ascii_cb = fake_ascii; e->utf8_cb = fake_utf8;
+                    e->allow_tld = 0;
+                    ret = eav_is_email(e, "x@y.zz", 6);
+                    printf("%s[%d,%d,", m ? "," : "", ret, e->errcode);
+                    put_jstr(stdout, eav_errstr(e));
+                    putchar(']');
+                }
+                eav_free(e);
+                free(e);
+            }
+            printf("]\nEND\n");
         } else if (line[0] == 'Z') {
             int p = (int)strtol(line + 2, NULL, 0);
             eav_t *e = malloc(sizeof *e);
